@@ -72,7 +72,11 @@ Inductive qop :=
 (* the caller changes a (non-frozen) value object it handed in earlier through push / extend /
    update / the constructor, or obtained from iteration or pull.  Durq (after the repair of D40)
    and Dusq keep and hand out private copies, so this is not an operation on the container. *)
-| CallerMutates.
+| CallerMutates
+(* the store was reopened in a way that does not keep its directory (clear=True, or a temporary
+   store reopened without reuse=True): the durable content at the key is gone and the old queue
+   object is abandoned; an [Enter] follows *)
+| Wiped.
 
 Record snap := { sn_res : res rv; sn_mem : list val; sn_store : list bytes }.
 
@@ -188,6 +192,7 @@ Section Durq.
     (* put()/add() clear the stale flag, then _ser raises on the invalid member before any write *)
     | RawPutBad _ _ | RawAddBad => (s, {| mem := mem st; stale := false |}, Exc HierErr)
     | CallerMutates => (s, st, Ok (ROpt None))
+    | Wiped => let (s', _) := st_step set s (ORem []) q in (s', fresh [], Ok (ROpt None))
     | Reopen pre =>
       gsync set q s (fresh (if set then oset_update [] pre else pre)) false
     end.
@@ -232,6 +237,7 @@ Section Durq.
     | ExtendBad _ _ | PushBad | RawPutBad _ _ | RawAddBad => (l, Exc HierErr)
     | RemoveBad => (l, if set then Exc HierErr else Exc AttrErr)
     | CallerMutates => (l, Ok (ROpt None))
+    | Wiped => ([], Ok (ROpt None))
     | Reopen pre | Enter _ pre =>
       match l with
       | [] => (if set then dedupe pre else pre, Ok (RBool true))
@@ -403,9 +409,9 @@ Definition qop_index (o : qop) : nat :=
   | Push _ => 0 | PushNone => 1 | Extend _ => 2 | Pull _ => 3 | Clear => 4 | Count _ => 5
   | Remove _ => 6 | Sync _ => 7 | Reopen _ => 8 | ExtendBad _ _ => 9 | PushBad => 10
   | RemoveBad => 11 | RawPutBad _ _ => 12 | RawAddBad => 13 | Enter _ _ => 14
-  | CallerMutates => 15
+  | CallerMutates => 15 | Wiped => 16
   end.
-Definition n_branches : nat := 96.
+Definition n_branches : nat := 102.
 Definition case_branches (c : case) : list nat :=
-  map (fun p : (bool * N * qop) * snap => ((if fst (fst (fst p)) then 48 else 0) + qop_index (snd (fst p)) * 3 + outcome (sn_res (snd p)))%nat)
+  map (fun p : (bool * N * qop) * snap => ((if fst (fst (fst p)) then 51 else 0) + qop_index (snd (fst p)) * 3 + outcome (sn_res (snd p)))%nat)
       (combine (c_ops c) (mrun (pyeq_of (c_eq c)) store spec_sstep spec_view menv0 mqueues0 (c_ops c))).
